@@ -2,7 +2,7 @@
 import ast
 
 from vstat.loader import AnalysisError
-from vstat.terms import builder, show, SELF, NONE, G, alts, walk, mentions, phi, strip_none
+from vstat.terms import IT, builder, show, SELF, NONE, G, alts, walk, mentions, phi, strip_none
 from vstat.guards import path_conditions, exception_name
 from vstat.cfg import cfg_of, EXIT, RAISE
 from vstat.sigs import bind
@@ -251,9 +251,9 @@ def compute(prog, rep):
         vals = set()
         for dd in base:
             vals |= alts(b.def_term(dd))
-        want = {("item", sel[1], 1), ("const", 0)}
+        want = {IT(sel[1], 1), ("const", 0)}
         fm_st = [s for s in cfg.all_stmts() if isinstance(s, ast.Assign) and isinstance(s.targets[0], ast.Attribute) and s.targets[0].attr == "fm"]
-        ok = vals <= want and ("item", sel[1], 1) in vals and len(fm_st) == 1 and isinstance(fm_st[0].value, ast.Name) and fm_st[0].value.id == name \
+        ok = vals <= want and IT(sel[1], 1) in vals and len(fm_st) == 1 and isinstance(fm_st[0].value, ast.Name) and fm_st[0].value.id == name \
             and cfg.dominates(cfg.node(div[0]), cfg.node(fm_st[0]))
         why = f"self.fm must be the threshold probability returned by the selection divided by EVERY entry of the same self.deltas; found base {[show(v)[:60] for v in vals]}"
     rep.check(ok, "C02.pairing", f"{q}:fm", fn.where(div[1]) if div else fn.where(), "fm = selected probability / every delta", why)
